@@ -14,7 +14,27 @@ Proof. intros t W. split; apply check_no_oob_lemma; assumption. Qed.
    2^31-2 trees), which needs about 2^30 edges. *)
 Lemma check_complete_top : forall t, WF t -> ValidTS t -> 2 * num_edges t + 1 < TSK_MAX_ID ->
   (exists n, check t = Ok n) /\ (exists n, check_repaired t = Ok n).
-Proof. intros t W V B. split; apply check_complete_lemma; assumption. Qed.
+Proof.
+  intros t W V B. split.
+  - destruct (check_complete_lemma code_variant t W V B) as [n [E _]]. exists n; exact E.
+  - destruct (check_complete_lemma repaired t W V B) as [n [E _]]. exists n; exact E.
+Qed.
+
+(* the returned number of trees is the number of distinct breakpoints below L *)
+Lemma check_count_top : forall t n Lz, WF t -> ValidTS t -> 2 * num_edges t + 1 < TSK_MAX_ID ->
+  seqlen t = Fin Lz -> check t = Ok n -> n = num_trees_spec t Lz.
+Proof.
+  intros t n Lz W V B HL H. destruct (check_complete_lemma code_variant t W V B) as [n' [E C]].
+  unfold check in H. rewrite E in H. inversion H; subst. apply C. assumption.
+Qed.
+
+Lemma check_repaired_count_top : forall t n Lz, WF t -> 2 * num_edges t + 1 < TSK_MAX_ID ->
+  seqlen t = Fin Lz -> check_repaired t = Ok n -> n = num_trees_spec t Lz.
+Proof.
+  intros t n Lz W B HL H. assert (V := check_repaired_sound_lemma t n W H).
+  destruct (check_complete_lemma repaired t W V B) as [n' [E C]].
+  unfold check_repaired in H. rewrite E in H. inversion H; subst. apply C. assumption.
+Qed.
 
 (* the repaired gate decides ValidTS exactly *)
 Lemma check_repaired_iff_top : forall t, WF t -> 2 * num_edges t + 1 < TSK_MAX_ID ->
@@ -22,7 +42,7 @@ Lemma check_repaired_iff_top : forall t, WF t -> 2 * num_edges t + 1 < TSK_MAX_I
 Proof.
   intros t W B. split.
   - intros [n H]. eapply check_repaired_sound_lemma; eauto.
-  - intro V. apply check_complete_lemma; assumption.
+  - intro V. destruct (check_complete_lemma repaired t W V B) as [n [E _]]. exists n; exact E.
 Qed.
 
 (* non-vacuity: the hypotheses of the completeness theorem are met by a collection with edges,
@@ -32,3 +52,13 @@ Proof.
   apply check_complete_top; [|exact ex_valid_is_valid|vm_compute; reflexivity].
   apply ex_tables_WF. intros I O E. inversion E; subst. split; reflexivity.
 Qed.
+
+(* F1 also breaks the tree count on the code as it is: edges [0,2) and [0,4) of two children,
+   removal order [1,1]: accepted with 1 tree where the tables define 2 *)
+Example f1_wrong_count :
+  let t := mkTables (Fin 4) 0 0 [] [0] [Fin 0; Fin 0; Fin 2] [-1; -1; -1] [-1; -1; -1]
+             [Fin 0; Fin 0] [Fin 2; Fin 4] [2; 2] [0; 1] [] [] [] [] [] [] [] [] [] [] [] []
+             (Some ([0; 1], [1; 1])) in
+  check_integrity faithful opts_trees t = Ok 1 /\ num_trees_spec t 4 = 2 /\
+  check_repaired t = Err E_TABLES_BAD_INDEXES.
+Proof. repeat split; vm_compute; reflexivity. Qed.
